@@ -1214,7 +1214,7 @@ def audit(out: OutputBuffer, aconf: AuditConf, sshv: Optional[int] = None, print
     out.verbose = aconf.verbose
     out.debug = aconf.debug
     out.level = aconf.level
-    out.use_colors = aconf.colors
+    out.use_colors = aconf.colors and not aconf.json  # JSON output carries no terminal colour codes (main() and the worker threads turn them off; keep it that way).
     s = SSH_Socket(out, aconf.host, aconf.port, aconf.ip_version_preference, aconf.timeout, aconf.timeout_set)
 
     if aconf.client_audit:
